@@ -267,3 +267,48 @@ def run_enumerate(ctx: Ctx, sub: Sub, shard: int, nshards: int) -> None:
 
 def format_exc() -> str:
     return traceback.format_exc()[-3000:]
+
+
+def run_atheris(ctx: Ctx, spec: dict, target: str, fn, runs: int) -> None:
+    """Coverage-guided tier: run ``vfw.fuzz.targets <target>`` under libFuzzer for ``runs`` executions (empty corpus,
+    seed derived from VERIF_SEED). A saved crashing input is decoded and re-judged here, so it is classified like any other
+    disagreement. atheris missing = the tier is skipped (noted), never a verdict."""
+    import glob
+    import re
+    import subprocess
+    import sys
+    import tempfile
+
+    from vfw.fuzz import targets
+
+    try:
+        import atheris  # noqa: F401
+    except Exception:  # noqa: BLE001
+        ctx.notes.append("atheris is not available: coverage-guided tier skipped")
+        return
+    workdir = tempfile.mkdtemp(prefix="vfw-fuzz-", dir="/var/tmp")
+    try:
+        cmd = [sys.executable, "-m", "vfw.fuzz.targets", target, ctx.prop, ctx.sub, f"-runs={runs}", f"-seed={spec['seed'] % 2**31 or 1}", f"-artifact_prefix={workdir}/", "-max_len=64", "-timeout=20", workdir + "/corpus"]
+        import os
+
+        os.makedirs(workdir + "/corpus")
+        done = subprocess.run(cmd, capture_output=True, timeout=spec.get("soft_deadline_s", 600), cwd=ROOT)
+        text = done.stderr.decode("utf-8", "replace") + done.stdout.decode("utf-8", "replace")
+        m = re.findall(r"stat::number_of_executed_units: (\d+)", text) or re.findall(r"#(\d+)\s+DONE", text) or re.findall(r"#(\d+)\s", text)
+        executed = int(m[-1]) if m else 0
+        ctx.evaluations += executed
+        ctx.classes["libfuzzer-executions"] += executed
+        ctx.notes.append(f"libFuzzer target {target}: {executed} executions, exit {done.returncode}")
+        for path in glob.glob(workdir + "/crash-*") + glob.glob(workdir + "/timeout-*"):
+            inp = targets.decode_file(target, path)
+            try:
+                fn(ctx, inp)
+                ctx.notes.append(f"libFuzzer saved {os.path.basename(path)} but the input does not reproduce a disagreement")
+            except Violation as exc:
+                ctx.record_violation(exc, inp, kind=spec.get("replay_sub"))
+        if executed == 0 and done.returncode != 0 and not ctx.violations:
+            raise HarnessError(f"libFuzzer target {target} did not run: {text[-600:]}")
+    finally:
+        import shutil
+
+        shutil.rmtree(workdir, ignore_errors=True)
